@@ -52,6 +52,9 @@ struct Ctx {
         if (s >= NSLOTS || nopd >= MAXOPD) { fprintf(stderr, "memsim: too many operands\n"); _exit(2); }
         if (!slot_used[s]) { g_arena.reset(s, pattern); slot_used[s] = true; }
         uint32_t bo = anyalign ? backoff(k) : 0;
+        // the property speaks of EVERY misalignment 0..63 bytes of a wrapped buffer: with the plan's byte-granular flag the buffer
+        // may start at an address that is not even a multiple of sizeof(T)
+        if (anyalign && (st->a[A_FAULT] & 0x40) && align <= 8) align = 1;
         uint8_t *p = g_arena.place(s, bytes, align, side(k), bo, output);
         opd[nopd++] = Opd{p, (uint32_t)bytes, output, s};
         return p;
